@@ -781,6 +781,14 @@ evbuffer_commit_space(struct evbuffer *buf,
 		goto done;
 	if (CHAIN_SPACE_LEN(*firstchainp) == 0) {
 		firstchainp = &(*firstchainp)->next;
+	} else if ((*firstchainp)->next &&
+	    vec[0].iov_base != (void *)CHAIN_SPACE_PTR(*firstchainp) &&
+	    vec[0].iov_base == (void *)CHAIN_SPACE_PTR((*firstchainp)->next)) {
+		/* evbuffer_expand_singlechain() hands out the empty chain after
+		 * the last chain with data when that one has too little room
+		 * left to be worth resizing; with further empty chains behind
+		 * it, it is not buf->last either. */
+		firstchainp = &(*firstchainp)->next;
 	}
 
 	chain = *firstchainp;
